@@ -94,7 +94,7 @@ func run12(w *vh.W, c *j12) {
 		// same points as the direct call (time only compared when the line carried one: the wrapper uses time.Now)
 		if len(pp.Points) == len(pts) {
 			for i := range pts {
-				if !bytes.Equal(pp.Points[i].Key(), pts[i].Key()) || pp.Points[i].String()[:len(pts[i].Key())] != string(pts[i].Key()) {
+				if !bytes.Equal(pp.Points[i].Key(), pts[i].Key()) {
 					w.Fail(idx, "http/points Parser.Parse returned a different point than models.ParsePointsWithPrecision", "")
 				}
 			}
@@ -135,7 +135,36 @@ func run12(w *vh.W, c *j12) {
 
 // ---- generators ----
 
-type gen12 struct{ w *vh.W }
+type gen12 struct {
+	w     *vh.W
+	clean bool // pick only well-formed components
+}
+
+// the well-formed members of the component tables (classified by the real parser; input generation only)
+var goodValues, goodStamps []string
+
+func init() {
+	okLine := func(l string) bool {
+		ok := false
+		vh.Guard(func() {
+			pts, err := models.ParsePointsWithPrecision([]byte(l), time.Unix(0, 0), "ns")
+			ok = err == nil && len(pts) == 1
+		})
+		return ok
+	}
+	for _, tab := range [][]string{numbers, bools, strs} {
+		for _, v := range tab {
+			if okLine("m f=" + v + " 1") {
+				goodValues = append(goodValues, v)
+			}
+		}
+	}
+	for _, v := range stamps {
+		if okLine("m f=1 " + v) {
+			goodStamps = append(goodStamps, v)
+		}
+	}
+}
 
 func (g gen12) pick(xs ...string) string { return xs[g.w.Rng.IntN(len(xs))] }
 func (g gen12) n(k int) int              { return g.w.Rng.IntN(k) }
@@ -164,6 +193,9 @@ var stamps = []string{"", "", "0", "1", "-1", "5", "1700000000000000000", "-9223
 	"9223372036", "9223372037", "-9223372036", "-9223372037", "9223372036854", "9223372036855", "9223372036854775", "9223372036854776", "-9223372036854775", "-9223372036854776", "00000000000000000000000000001", "-", "--1", "1-", "+1", "1.5", "1e3", "12a", "1 ", " 1", "1 2", "1  ", "1\t", "\t1"}
 
 func (g gen12) value() string {
+	if g.clean {
+		return g.pick(goodValues...)
+	}
 	switch g.n(10) {
 	case 0, 1, 2, 3:
 		return g.pick(numbers...)
@@ -176,7 +208,7 @@ func (g gen12) value() string {
 }
 
 func (g gen12) tagKey() string {
-	if g.n(12) == 0 {
+	if !g.clean && g.n(12) == 0 {
 		return g.pick("time", "_field", "_measurement", "\xff", "\x00", "tim", "time2", `ti\me`)
 	}
 	return g.pick("a", "b", "c", "host", `a\ b`, `a\,`, `a\=`, "é", "A", "a!", `a"`, "aa", "ab") + g.pick("", "", "", "1", "b")
@@ -220,6 +252,9 @@ func (g gen12) line() string {
 		b.WriteString(g.pick("f", "g", "value", `f\ x`, `f\,x`, `f\=x`, `f"`, `f\"`, "é", "time", "f", `f\\`, `\f`) + "=" + g.value())
 	}
 	ts := g.pick(stamps...)
+	if g.clean {
+		ts = g.pick(goodStamps...)
+	}
 	if ts != "" {
 		b.WriteString(" " + ts)
 	}
@@ -306,8 +341,13 @@ func (g gen12) structured() j12 {
 	var lines []string
 	k := 1 + g.n(3)
 	for i := 0; i < k; i++ {
+		g.clean = g.n(2) == 0
 		l := g.line()
-		for m := g.n(3); m > 0; m-- {
+		nm := g.n(3)
+		if g.clean && g.n(3) != 0 {
+			nm = 0
+		}
+		for m := nm; m > 0; m-- {
 			l = g.mutate(l)
 		}
 		if g.n(15) == 0 {
@@ -402,7 +442,7 @@ func main12(w *vh.W) {
 		c := c
 		run12(w, &c)
 	}
-	g := gen12{w}
+	g := gen12{w: w}
 	for w.Len() < w.N {
 		var c j12
 		switch x := g.n(10); {
